@@ -12,6 +12,7 @@ import (
 	"os"
 	"path/filepath"
 	"strings"
+	"sync"
 	"time"
 
 	"github.com/varlink/go/varlink"
@@ -431,8 +432,27 @@ func c15Real(r *fw.Run, transport string, useListen bool) {
 		viol("accepted-connection-not-served", "the long-lived connection no longer answers: %v", err)
 	}
 	r.Count("real_clock_busy_checks", 1)
-	c1.Close()
-	c2.Close()
+	// many connections that all end at the same instant: the count of open connections must still reach zero
+	var many []net.Conn
+	for k := 0; k < 24; k++ {
+		if c, err := net.DialTimeout(network, dial, 5*time.Second); err == nil {
+			if k%2 == 0 {
+				roundTrip(c, 10*time.Second)
+			} else {
+				c.Write([]byte(`{"method":"org.varlink.serv`))
+			}
+			many = append(many, c)
+		}
+	}
+	var cw sync.WaitGroup
+	gate := make(chan struct{})
+	for _, c := range append(many, c1, c2) {
+		cw.Add(1)
+		go func(c net.Conn) { defer cw.Done(); <-gate; c.Close() }(c)
+	}
+	close(gate)
+	cw.Wait()
+	r.Count("simultaneous_closes", int64(len(many)+2))
 	// once the last connection has ended the next expiry stops the service
 	select {
 	case e := <-done:
